@@ -254,7 +254,10 @@ def Cur.getOp (c : Cur) : Except Err Op := do return Op.ofString (← c.getStr "
 /-- `Parameters::get_value_at_array(name)` → (`first`, `second`) -/
 def Cur.getValueAtArray (c : Cur) (name : String) : Except Err (List R × List R) :=
   match c.val? name with
-  | none => .ok ([], [])
+  | none => do
+    -- no user value: `first = {0.0}`, `second = {default}` (parameters.cc:875-880)
+    let d : R ← jnum (← schemaAt c.schema [name, "oneOf", "0", "default value"])
+    return ([0.0], [d])
   | some (.arr arr) => do
     arr.toList.foldlM (fun (acc : List R × List R) item => do
       let e ← jarr item
@@ -543,6 +546,108 @@ def parseLineTemp (ctx : Ctx R) (isFault : Bool) (model : String) (c : Cur) : Ex
     return .adiabatic mn mx op (if tp < 0 then ctx.potentialT else tp) (if al < 0 then ctx.alpha else al) (if cp < 0 then ctx.cp else cp)
   | _ => .error .unsupported
 
+/-- `Parameters::get_vector_or_double(name)` (parameters.cc:954-1062): a number → `{{v}}`, an array of arrays → itself,
+absent → `{{default}}` -/
+def Cur.getVectorOrDouble (c : Cur) (name : String) : Except Err (List (List R)) :=
+  match c.val? name with
+  | none => do
+    let d : R ← jnum (← schemaAt c.schema [name, "oneOf", "0", "default value"])
+    return [[d]]
+  | some (.arr arr) => arr.toList.mapM (fun l => do (← jarr l).toList.mapM jnum)
+  | some v => do return [[← jnum v]]
+
+/-- `prm.get<unsigned int>(name)` -/
+def Cur.getNat (c : Cur) (name : String) : Except Err Nat :=
+  match c.val? name with
+  | some v => jnat v
+  | none => do jnat (← schemaAt c.schema [name, "default value"])
+
+/-- `world->potential_mantle_temperature >= 0 ? world->potential_mantle_temperature : prm.get<double>("potential mantle temperature")`
+(slab `plate model` and `mass conserving`: the world's value wins unless it is negative) -/
+def slabPotentialT (ctx : Ctx R) (c : Cur) : Except Err R := do
+  if ctx.potentialT ≥ 0 then return ctx.potentialT else c.getNum "potential mantle temperature"
+
+/-- `SubductingPlateModels::Temperature::PlateModel::parse_entries` (plate_model.cc:98-127) -/
+def parseSlabPlateModel (ctx : Ctx R) (c : Cur) : Except Err (SlabPlateModel R) := do
+  let mn : R ← c.getNum "min distance slab top"
+  let mx : R ← c.getNum "max distance slab top"
+  let op ← c.getOp
+  let density : R ← c.getNum "density"
+  let pv : R ← c.getNum "plate velocity"
+  let k : R ← c.getNum "thermal conductivity"
+  let al : R ← c.getNum "thermal expansion coefficient"
+  let cp : R ← c.getNum "specific heat"
+  let ah ← c.getBool "adiabatic heating"
+  let tp ← slabPotentialT ctx c
+  return { mn := mn, mx := mx, op := op, density := density, plateVelocity := pv, conductivity := k,
+           alpha := if al < 0 then ctx.alpha else al, cp := if cp < 0 then ctx.cp else cp,
+           adiabaticHeating := ah, potentialT := tp }
+
+/-- `approx(sv[r][p], spreading[r][p])` for every point of every ridge, after the dimension test of ridge `r`
+(mass_conserving.cc:271-284) -/
+def checkSubductingVelocities (ridges : List (List (P2 R))) (vels subVel : List (List R)) : Nat → Nat → Except Err Unit
+  | 0, _ => .ok ()
+  | fuel + 1, r =>
+    if r < ridges.length then do
+      let ridge ← idx ridges r
+      if !(subVel.length == ridges.length) then .error .other
+      let sv ← idx subVel r
+      if !(sv.length == ridge.length) then .error .other
+      let vs ← idx vels r
+      (List.range ridge.length).forM (fun p => do
+        let a ← idx sv p
+        let b ← idx vs p
+        if !(approx a b) then .error .other)
+      checkSubductingVelocities ridges vels subVel fuel (r + 1)
+    else .ok ()
+
+/-- `MassConserving::parse_entries` (mass_conserving.cc:186-286) -/
+def parseMassConserving (ctx : Ctx R) (c : Cur) : Except Err (MassConserving R) := do
+  let sph := ctx.coord.spherical
+  let mn : R ← c.getNum "min distance slab top"
+  let mx : R ← c.getNum "max distance slab top"
+  let op ← c.getOp
+  let density : R ← c.getNum "density"
+  let k : R ← c.getNum "thermal conductivity"
+  let (first, _) ← c.getValueAtArray (R := R) "spreading velocity"
+  let subVel : List (List R) ← c.getVectorOrDouble "subducting velocity"
+  let coupling : R ← c.getNum "coupling depth"
+  let forearc : R ← c.getNum "forearc cooling factor"
+  let taper : R ← c.getNum "taper distance"
+  let al : R ← c.getNum "thermal expansion coefficient"
+  let cp : R ← c.getNum "specific heat"
+  let kappa : R ← c.getNum "thermal diffusivity"
+  let ah ← c.getBool "adiabatic heating"
+  let tp ← slabPotentialT ctx c
+  -- ridge coordinates (× π/180 when spherical), the always-on length check, the per-ridge velocity table
+  let ridge ← c.getRidgeSpec sph
+  let refName ← c.getStr "reference model name"
+  -- any other string leaves `reference_model_name` uninitialised in the C++ (no schema enum, no check): not modelled
+  let plateRef ← (if refName == "plate model" then pure true
+                  else if refName == "half space model" then pure false
+                  -- `WBAssertThrow(false, "The reference model name … is not a valid option")` (fixed upstream: the enum stayed uninitialised)
+                  else .error .other : Except Err Bool)
+  let spline ← c.getBool "apply spline"
+  let nPts ← c.getNat "number of points in spline"
+  let sv0 ← idx subVel 0
+  if sv0.length > 1 then do
+    -- `WBAssertThrow(ridge_spreading_velocities.first.size() == mid_oceanic_ridges.size(), …)` (fixed upstream: the migration times were indexed by ridge unchecked)
+    if !(first.length == ridge.ridges.length) then .error .other
+    checkSubductingVelocities ridge.ridges ridge.vels subVel (ridge.ridges.length + 1) 0
+  return { mn := mn, mx := mx, op := op, density := density, conductivity := k, couplingDepth := coupling,
+           forearcCoolingFactor := forearc, taperDistance := taper,
+           alpha := if al < 0 then ctx.alpha else al, cp := if cp < 0 then ctx.cp else cp,
+           kappa := if kappa < 0 then ctx.kappa else kappa,
+           adiabaticHeating := ah, potentialT := tp, surfaceT := ctx.surfaceT,
+           ridge := ridge, subVel := subVel, migrationTimes := first,
+           plateRef := plateRef, applySpline := spline, splineNPoints := nPts }
+
+/-- one entry of a segment's `temperature models` list: the slab-only models, else the models shared with the fault -/
+def parseSegTemp (ctx : Ctx R) (isFault : Bool) (model : String) (c : Cur) : Except Err (SegTemp R) := do
+  if !isFault && model == "plate model" then return .slab (.plateModel (← parseSlabPlateModel ctx c))
+  else if !isFault && model == "mass conserving" then return .slab (.massConserving (← parseMassConserving ctx c))
+  else return .basic (← parseLineTemp ctx isFault model c)
+
 def parseLineComp (isFault : Bool) (model : String) (c : Cur) : Except Err (LineComp R) := do
   match model with
   | "uniform" => do
@@ -652,7 +757,7 @@ def parseSegment (ctx : Ctx R) (isFault : Bool) (seg : Cur) (ancestors : List Js
   let ang : P2 R ← (match seg.val? "angle" with
     | some v => jpair v
     | none => .error .other)
-  let temps ← (← resolveModels seg ancestors "temperature models").mapM (fun (m, c) => parseLineTemp ctx isFault m c)
+  let temps ← (← resolveModels seg ancestors "temperature models").mapM (fun (m, c) => parseSegTemp ctx isFault m c)
   let comps ← (← resolveModels seg ancestors "composition models").mapM (fun (m, c) => parseLineComp isFault m c)
   let grains ← (← resolveModels seg ancestors "grains models").mapM (fun (m, c) => parseLineGrains isFault m c)
   let vels ← (← resolveModels seg ancestors "velocity models").mapM (fun (m, c) => parseLineVel isFault m c)
